@@ -345,6 +345,28 @@ pub struct Archive {
     pub tiles: Vec<Tile>,
     pub meta: Meta,
     pub set: Settings,
+    /// very large tile lists are stored as a generator spec (the list is a pure function of it)
+    /// and materialised on demand, so that cases and replay files stay small
+    #[serde(default)]
+    pub gen: Option<BigGen>,
+}
+
+#[derive(Clone, Copy, Debug, Serialize, Deserialize, PartialEq, Eq)]
+pub struct BigGen {
+    /// 1 LongRun, 2 ManyRegular, 3 Gigantic, 4 Colossal
+    pub class: u8,
+    pub seed: u64,
+}
+
+impl Archive {
+    /// Fills `tiles` from the generator spec (no-op for literal archives).
+    pub fn materialise(&mut self) {
+        if let Some(g) = self.gen {
+            if self.tiles.is_empty() {
+                self.tiles = big_tiles(g.class, g.seed);
+            }
+        }
+    }
 }
 
 /// The reference model: an ordered map id → bytes (+ settings and metadata).
@@ -371,6 +393,61 @@ impl Model {
     }
 }
 
+
+/// Tile list of a big archive class; a pure function of (class, seed).
+pub fn big_tiles(class: u8, seed: u64) -> Vec<Tile> {
+    let mut r = Rng::new(seed);
+    let rng = &mut r;
+    let mut tiles: Vec<Tile> = Vec::new();
+    match class {
+        4 => {
+            let n = 1_250_000 + rng.below(150_000);
+            let mut id = rng.below(10);
+            tiles.reserve(n as usize);
+            for i in 0..n {
+                tiles.push(Tile { id, c: Cont { k: 1, seed: (i % 3) as u32, len: 1 } });
+                id += 2 + rng.log_range(1, 1 << 18);
+            }
+        }
+        3 => {
+            let distinct = 262_144 + 2000 + rng.below(40_000);
+            let cseed = rng.next_u64() as u32 & 0x00ff_ffff;
+            let mut id = rng.below(10);
+            for i in 0..distinct {
+                tiles.push(Tile { id, c: Cont { k: 0, seed: cseed.wrapping_add(i as u32), len: 4 } });
+                id += 1 + rng.below(3);
+            }
+            // repeats of early contents at higher ids
+            for _ in 0..20_000 {
+                id += 1 + rng.below(3);
+                let j = rng.below(distinct / 2) as u32;
+                tiles.push(Tile { id, c: Cont { k: 0, seed: cseed.wrapping_add(j), len: 4 } });
+            }
+        }
+        2 => {
+            let n = *rng.pick(&[65_536u64, 65_537, 70_000, 100_000]);
+            let base = rng.below(50);
+            let cseed = rng.next_u64() as u32 & 0x00ff_ffff;
+            for i in 0..n {
+                tiles.push(Tile { id: base + i, c: Cont { k: 0, seed: cseed.wrapping_add(i as u32), len: 4 } });
+            }
+        }
+        1 => {
+            let n = *rng.pick(&[65_535u64, 65_536, 65_537, 70_000, 131_073]);
+            let base = rng.below(1000);
+            let c = Cont { k: 1, seed: rng.below(256) as u32, len: 1 + rng.below(3) as u32 };
+            for i in 0..n {
+                tiles.push(Tile { id: base + i, c });
+            }
+            if rng.chance(50) {
+                tiles.push(Tile { id: base + n + 5, c: Cont { k: 0, seed: 9, len: 2 } });
+            }
+        }
+        _ => {}
+    }
+    tiles
+}
+
 #[derive(Clone, Copy, Debug, PartialEq, Eq)]
 pub enum SizeClass {
     Empty,
@@ -385,6 +462,9 @@ pub enum SizeClass {
     LongRun,
     /// more than 2^18 distinct contents, early contents repeating at higher ids
     Gigantic,
+    /// about 1.3 million non-mergeable entries over three tiny contents: even 512-entry leaves
+    /// give a pointer root above the budget
+    Colossal,
     /// more than 65 536 regular entries (distinct equal-size contents at consecutive ids): with a
     /// compressing codec they all fit one root directory
     ManyRegular,
@@ -409,39 +489,14 @@ pub fn draw_archive(rng: &mut Rng, size: SizeClass, ic: u8) -> Archive {
     let meta = Meta::draw(rng);
     let mut tiles = Vec::new();
     match size {
-        SizeClass::Gigantic => {
-            let distinct = 262_144 + 2000 + rng.below(40_000);
-            let cseed = rng.next_u64() as u32 & 0x00ff_ffff;
-            let mut id = rng.below(10);
-            for i in 0..distinct {
-                tiles.push(Tile { id, c: Cont { k: 0, seed: cseed.wrapping_add(i as u32), len: 4 } });
-                id += 1 + rng.below(3);
-            }
-            // repeats of early contents at higher ids
-            for _ in 0..20_000 {
-                id += 1 + rng.below(3);
-                let j = rng.below(distinct / 2) as u32;
-                tiles.push(Tile { id, c: Cont { k: 0, seed: cseed.wrapping_add(j), len: 4 } });
-            }
-        }
-        SizeClass::ManyRegular => {
-            let n = *rng.pick(&[65_536u64, 65_537, 70_000, 100_000]);
-            let base = rng.below(50);
-            let cseed = rng.next_u64() as u32 & 0x00ff_ffff;
-            for i in 0..n {
-                tiles.push(Tile { id: base + i, c: Cont { k: 0, seed: cseed.wrapping_add(i as u32), len: 4 } });
-            }
-        }
-        SizeClass::LongRun => {
-            let n = *rng.pick(&[65_535u64, 65_536, 65_537, 70_000, 131_073]);
-            let base = rng.below(1000);
-            let c = Cont { k: 1, seed: rng.below(256) as u32, len: 1 + rng.below(3) as u32 };
-            for i in 0..n {
-                tiles.push(Tile { id: base + i, c });
-            }
-            if rng.chance(50) {
-                tiles.push(Tile { id: base + n + 5, c: Cont { k: 0, seed: 9, len: 2 } });
-            }
+        SizeClass::Colossal | SizeClass::Gigantic | SizeClass::ManyRegular | SizeClass::LongRun => {
+            let class = match size {
+                SizeClass::LongRun => 1,
+                SizeClass::ManyRegular => 2,
+                SizeClass::Gigantic => 3,
+                _ => 4,
+            };
+            return Archive { tiles: Vec::new(), meta, set, gen: Some(BigGen { class, seed: rng.next_u64() }) };
         }
         SizeClass::Window => {
             // distinct 4-byte contents, ids consecutive or sparse: the entry list (and so the
@@ -525,7 +580,7 @@ pub fn draw_archive(rng: &mut Rng, size: SizeClass, ic: u8) -> Archive {
             }
         }
     }
-    Archive { tiles, meta, set }
+    Archive { tiles, meta, set, gen: None }
 }
 
 // ---------------------------------------------------------------------------------------------
